@@ -154,6 +154,17 @@ type EdgeInfo struct {
 	Cond ast.Expr // the condition (if/for/tagless switch) or the case expression (tagged switch)
 	Val  bool     // truth value of Cond on this edge (for a tagged switch: tag == Cond)
 	Case bool     // Cond is a case expression of a tagged switch
+	// Synth: for a tagged switch the comparison this edge decides, `tag == case expression`
+	Synth ast.Expr
+}
+
+// Test returns the expression whose truth value is Val on this edge, whatever the spelling (an if condition, or
+// `tag == value` for the arm of a tagged switch).
+func (e EdgeInfo) Test() (ast.Expr, bool) {
+	if e.Case {
+		return e.Synth, e.Synth != nil
+	}
+	return e.Cond, true
 }
 
 func (g *Graph) EdgeInfo(b *cfg.Block, succ int) (EdgeInfo, bool) {
@@ -170,6 +181,7 @@ func (g *Graph) EdgeInfo(b *cfg.Block, succ int) (EdgeInfo, bool) {
 			// find the enclosing switch to learn whether it has a tag
 			if sw := g.switchOf(cc); sw != nil && sw.Tag != nil {
 				info.Case = true
+				info.Synth = &ast.BinaryExpr{X: sw.Tag, Op: token.EQL, Y: e}
 			}
 		}
 	}
@@ -687,7 +699,6 @@ func errorsIsOperands(cond ast.Expr) (ast.Expr, ast.Expr, bool) {
 	}
 	return call.Args[0], call.Args[1], true
 }
-
 
 // expandBoolLocal: `isNull := v == nil; if isNull {…}` tests v == nil. A condition that is (the negation of) a boolean
 // local with a single definition is replaced by that definition.
